@@ -1,4 +1,4 @@
-"""C13 -- concurrent_priority_queue: the serial handler (heap maintenance + batch bookkeeping) and the aggregator hand-off."""
+"""C13 -- concurrent_priority_queue: heap maintenance (heapify/reheap, every size), the batch handler (every batch length), the API wrappers and the aggregator hand-off."""
 import os
 import sys
 import re
@@ -17,6 +17,47 @@ VEC = [(r'\bdata\.size\(\)', 'VEC_SIZE(self)', 0), (r'\bdata\.empty\(\)', '(VEC_
        (r'\bmy_compare\(', 'COMPARE(', 0), (r'call_itt_notify\([^;]*\);', 'RG_NOP();', 0), (r'\bvalue_type\b', 'value_type', 0)]
 
 
+WRITE_TOKENS = r'DATA_MOVE|VEC_POP_BACK|VEC_PUSH_BACK|cpq_\w+\(|OP_SET_NEXT|self->data\[[^\]]*\]\s*(?:=[^=]|\+\+|--|[-+*/|&^]=)|(?:\+\+|--)\s*self->data'
+
+
+def number_hooks(rw, t, fname, defaults):
+    """COMPARE( -> COMPARE_<fn>_<k>( (k in textual order) and element moves `data[i] = move(data[j]);` / `data[i] = move(data.back());`
+    -> DATA_MOVE_<fn>_<k>(self, i, j); / DATA_MOVE_BACK_<fn>_<k>(self, i);  The hooks default to the plain operation (#ifndef block emitted in
+    front of the function); proof sections redefine them to add ghost updates / lemma instances.  The move rules have minimum count 0:
+    a change that deletes or reshapes a move must fail an obligation, not break extraction."""
+    for tok, pat, rep, dflt, minc in (
+            ('COMPARE', r'\bCOMPARE\(', 'COMPARE_%s_%d(', 'COMPARE', 0),
+            ('DATA_MOVE', r'self->data\[([^\]]+)\] = \(self->data\[([^\]]+)\]\);', 'DATA_MOVE_%s_%d(self, \\1, \\2);', None, 0),
+            ('DATA_MOVE_BACK', r'self->data\[([^\]]+)\] = \(VEC_BACK\(self\)\);', 'DATA_MOVE_BACK_%s_%d(self, \\1);', None, 0)):
+        k = [0]
+
+        def fn(m, tok=tok, rep=rep):
+            k[0] += 1
+            return m.expand(rep % (fname, k[0]))
+        t = re.sub(pat, fn, t)
+        rw._rec('hook:%s(%s)' % (tok, fname), k[0], minc)
+        for i in range(1, k[0] + 1):
+            nm = '%s_%s_%d' % (tok, fname, i)
+            body = {'COMPARE': '#define %s COMPARE' % nm, 'DATA_MOVE': '#define %s(s, i, j) ((s)->data[i] = (s)->data[j])' % nm,
+                    'DATA_MOVE_BACK': '#define %s(s, i) ((s)->data[i] = VEC_BACK(s))' % nm}[tok]
+            defaults.append('#ifndef %s\n%s\n#endif' % (nm, body))
+    return t
+
+
+def head_site(rw, t, loop_macro, site):
+    """A lemma instance (an instance of the loop's universally quantified invariant at another index) may only be assumed in the loop-head
+    state: between the loop header and the site there must be no write to the array, no call, no nested loop."""
+    a = t.find(loop_macro)
+    b = t.find(site, a)
+    if a < 0 or b < 0:      # the comparison is gone: no lemma is supplied, the order proof then fails on its own
+        rw.fired['head-site:' + site] = 0
+        return
+    seg = t[a + len(loop_macro):b]
+    if re.search(WRITE_TOKENS, seg) or re.search(r'\b(for|while|do|goto|continue)\b', seg):
+        raise ExtractionBreak('lemma site %s is no longer at the head of loop %s (a write or a loop precedes it)' % (site, loop_macro))
+    rw.fired['head-site:' + site] = 1
+
+
 def extract(ctx):
     sliced, fired = [], {}
     pq = CClass(PQ, r'class concurrent_priority_queue \{', 'cpq', tbind={'size_type': 'size_t'})
@@ -26,26 +67,84 @@ def extract(ctx):
             raise ExtractionBreak('concurrent_priority_queue.h: %s changed' % what)
     pq.members = [('size_t', 'mark', ''), ('size_t', 'my_size', ''), ('value_type*', 'data', ''), ('size_t', 'data_n', '')]
     rw = pq.rw
-    out = []
+    out, defaults = [], []
     t = pq.convert(pq.method(r'void heapify\(\)'), 'cpq_heapify', pre=VEC)
     t = tag_loops(t, 'heapify', rw, expect=2)
+    t = number_hooks(rw, t, 'heapify', defaults)
+    head_site(rw, t, 'LOOP_heapify_2', 'COMPARE_heapify_1(')
     out.append(t)
     t = pq.convert(pq.method(r'void reheap\(\)'), 'cpq_reheap', pre=VEC)
     t = tag_loops(t, 'reheap', rw, expect=1)
+    t = number_hooks(rw, t, 'reheap', defaults)
+    head_site(rw, t, 'LOOP_reheap_1', 'COMPARE_reheap_2(')
     out.append(t)
+    common.write(ctx, 'cpq_heap.inc', pq.struct_decl() + '\n'.join(defaults) + '\n' + '\n'.join(out))
     s = pq.method(r'void handle_operations\( cpq_operation\* op_list \)')
     txt = cxx2c.cpp_resolve(s.text, {'TBB_USE_EXCEPTIONS': 0}, 'handle_operations')
     rw.fired['cpp-resolve(TBB_USE_EXCEPTIONS=0: the catch arm is cut)'] = 1
     t = pq.convert(Slice(s.rel, s.start, s.end, txt, s.line), 'cpq_handle_operations', methods=['heapify', 'reheap'], pre=VEC + [
-        (r'\bop_list->next\.load\(std::memory_order_relaxed\)', 'op_list->next', 1), (r'pop_list->next\.load\(std::memory_order_relaxed\)', 'pop_list->next', 1),
-        (r'tmp->next\.store\(pop_list, std::memory_order_relaxed\);', 'tmp->next = pop_list;', 1),
-        (r'tmp->status\.store\(uintptr_t\((\w+)\), std::memory_order_release\);', r'SET_STATUS(tmp, \1);', 4),
-        (r'my_size\.store\(my_size\.load\(std::memory_order_relaxed\) ([-+]) 1, std::memory_order_relaxed\);', r'my_size = my_size \1 1;', 4),
-        (r'push_back_helper\(\*\(tmp->elem\)\);', 'VEC_PUSH_BACK(self, *(tmp->elem));', 1), (r'data\.push_back\(\(\*\(tmp->elem\)\)\);', 'VEC_PUSH_BACK(self, *(tmp->elem));', 1)])
+        (r'\bop_list->next\.load\(std::memory_order_relaxed\)', 'op_list->next', 0), (r'pop_list->next\.load\(std::memory_order_relaxed\)', 'pop_list->next', 0),
+        (r'tmp->next\.store\((\w+), std::memory_order_relaxed\);', r'tmp->next = \1;', 0),
+        (r'tmp->status\.store\(uintptr_t\((\w+)\), std::memory_order_release\);', r'SET_STATUS(tmp, \1);', 0),
+        (r'my_size\.store\(my_size\.load\(std::memory_order_relaxed\) ([-+]) 1, std::memory_order_relaxed\);', r'my_size = my_size \1 1;', 0),
+        (r'push_back_helper\(\*\(tmp->elem\)\);', 'VEC_PUSH_BACK(self, *(tmp->elem));', 0), (r'data\.push_back\(\(\*\(tmp->elem\)\)\);', 'VEC_PUSH_BACK(self, *(tmp->elem));', 0)])
     t = rw.sub(t, r'cpq_operation\* tmp, \*pop_list = NULL;', 'cpq_operation* tmp; cpq_operation* pop_list = NULL;', 1, 1, name='multi-declarator')
     t = tag_loops(t, 'handle', rw, expect=2)
     out.append(t)
-    common.write(ctx, 'cpq.inc', pq.struct_decl() + '\n'.join(out))
+    common.write(ctx, 'cpq.inc', pq.struct_decl() + '\n'.join(defaults) + '\n' + '\n'.join(out))
+    # ---- handle_operations once more, with every access to an operation record and every element hand-over behind a hook (proof section HANDLELC):
+    # the records of a batch of symbolic length are not laid out in memory; the hooks model them with ghost indices
+    h = t
+    h = rw.sub(h, r'\b(\w+)->next = (\w+);', r'OP_SET_NEXT(\1, \2);', 0, name='hook: op->next = x')
+    h = rw.sub(h, r'\b(\w+)->next\b', r'OP_NEXT(\1)', 0, name='hook: op->next')
+    h = rw.sub(h, r'\b(\w+)->type\b', r'OP_TYPE(\1)', 3, name='hook: op->type')
+    k = [0]
+
+    def take(m):
+        k[0] += 1
+        return ('POP_TAKE_BACK(%s, self);' % m.group(1)) if m.group(2).startswith('VEC_BACK') else ('POP_TAKE_AT(%s, self, %s);' % (m.group(1), m.group(3)))
+    h = re.sub(r'\*\((\w+)->elem\) = \((VEC_BACK\(self\)|self->data\[([^\]]+)\])\);', take, h)
+    rw._rec('hook: *(op->elem) = move(data.back() | data[i])', k[0], 0)
+    h = rw.sub(h, r'\*\((\w+)->elem\)', r'(*OP_ELEM(\1))', 0, name='hook: *(op->elem)')
+    hd = []
+    h = number_hooks(rw, h, 'handle', hd)
+    head_site(rw, h, 'LOOP_handle_1', 'OP_NEXT(op_list)')
+    common.write(ctx, 'cpq_handle.inc', pq.struct_decl() + '\n'.join(hd) + '\n' + h)
+    # ---- API wrappers and whole-container operations (section WRAP) -----------------------------------------------------------------
+    wr = Rewriter('cpq-wrappers')
+    STORE = (r'my_size\.store\((.*?), std::memory_order_relaxed\);', r'my_size = \1;', 0)
+    LOADO = (r'other\.my_size\.load\(std::memory_order_relaxed\)', 'other.my_size', 0)
+    pq.tbind['InputIterator'] = 'const value_type*'
+    wout = []
+    for sig, cname, opt in ((r'void push\( const value_type& value \)', 'cpq_push_copy', 'PUSH_OP'), (r'void push\( value_type&& value \)', 'cpq_push_move', 'PUSH_RVALUE_OP'),
+                            (r'bool try_pop\( value_type& value \)', 'cpq_try_pop', 'POP_OP')):
+        sl = pq.method(sig)
+        t = wr.sub(sl.text, sig, ('bool ' if 'try_pop' in sig else 'void ') + cname + '(struct cpq* self, value_type* value)', 1, 1, name='sig')
+        t = wr.sub(t, r'cpq_operation op_data\(value, (\w+)\);', r'cpq_operation op_data; cpq_operation_ctor(&op_data, value, \1);', 1, 1, name='local object with constructor call')
+        t = wr.sub(t, r'my_aggregator\.execute\(&op_data\);', 'AGG_EXECUTE(self, &op_data);', 0, name='aggregator.execute -> stub')
+        t = wr.sub(t, r'throw_exception\(exception_id::bad_alloc\);', 'THROW_BAD_ALLOC();', 0, name='throw -> stub')
+        wout.append(t)
+    sl = slice_block(PQ, r'cpq_operation\( const value_type& value, operation_type t \)', within=r'class cpq_operation : public aggregated_operation<cpq_operation> \{')
+    pq.sliced.append('%s:%d cpq_operation::cpq_operation' % (PQ, sl.line))
+    t = wr.sub(sl.text, r'cpq_operation\( const value_type& value, operation_type t \)\s*: type\((\w+)\), elem\(const_cast<value_type\*>\(&(\w+)\)\) \{\}',
+               r'static void cpq_operation_ctor(cpq_operation* self, value_type* value, int t) { aggregated_operation_ctor(self); self->type = \1; self->elem = \2; }', 1, 1, name='ctor init-list -> assignments (base first)')
+    sl = slice_block('include/oneapi/tbb/detail/_aggregator.h', r'aggregated_operation\(\) : status\{\}, next\(nullptr\)', within=r'class aggregated_operation \{')
+    pq.sliced.append('include/oneapi/tbb/detail/_aggregator.h:%d aggregated_operation::aggregated_operation' % sl.line)
+    t0 = wr.sub(sl.text, r'aggregated_operation\(\) : status\{\}, next\((\w+)\) \{\}', r'static void aggregated_operation_ctor(cpq_operation* self) { self->status = 0 /* status{} */; self->next = \1; }', 1, 1, name='ctor init-list -> assignments')
+    t0 = wr.std(t0)
+    wout = [t0, t] + wout
+    wout.append(pq.convert(pq.method(r'size_type size\(\) const'), 'cpq_size', pre=[(r'my_size\.load\(std::memory_order_relaxed\)', 'my_size', 1)]))
+    t = pq.convert(pq.method(r'bool empty\(\) const'), 'cpq_empty', methods=['size'], pre=[(r'__TBB_nodiscard\s*', '', 0)])
+    wout.append(t)
+    wout.append(pq.convert(pq.method(r'void clear\(\)'), 'cpq_clear', pre=[(r'\bdata\.clear\(\);', 'VEC_CLEAR(self);', 0), STORE]))
+    wout.append(pq.convert(pq.method(r'void assign\( InputIterator begin, InputIterator end \)'), 'cpq_assign', methods=['heapify'], pre=[(r'\bdata\.assign\(begin, end\);', 'VEC_ASSIGN(self, begin, end);', 0)] + VEC[:1] + [STORE]))
+    sl = pq.method(r'concurrent_priority_queue& operator=\( const concurrent_priority_queue& other \)')
+    txt = wr.sub(sl.text, r'concurrent_priority_queue& operator=\( const concurrent_priority_queue& other \)', 'void copy_assign( const concurrent_priority_queue& other )', 1, 1, name='operator= -> named function')
+    txt = wr.sub(txt, r'return \*this;', 'return;', 1, 1, name='return *this')
+    wout.append(pq.convert(Slice(sl.rel, sl.start, sl.end, txt, sl.line), 'cpq_copy_assign', other={'other': pq},
+                           pre=[(r'\(this != &other\)', '(self != other)', 1), (r'\bdata = other\.data;', 'VEC_COPY(self, other);', 0), LOADO, STORE]))
+    common.write(ctx, 'cpq_wrap.inc', pq.struct_decl() + '\n'.join(wout))
+    fired['concurrent_priority_queue wrappers'] = wr.fired
     # ---- aggregator_generic: the hand-off that makes the handler sequential ---------------------
     AG = 'include/oneapi/tbb/detail/_aggregator.h'
     rwa = Rewriter('aggregator')
@@ -92,20 +191,52 @@ def build(ctx):
         Job('agg.execute', C, 'h_agg', route='RG', defines=['AGG'], loops=True, nloops=1, timeout=600, target='aggregator_generic::execute + start_handle_operations (single handler, every operation in exactly one batch)', source='include/oneapi/tbb/detail/_aggregator.h'),
         Job('book.reheap', C, 'h_reheap_lc', route='LC', loops=True, nloops=1, defines=['LCMODE'], timeout=600, target='concurrent_priority_queue::reheap (bookkeeping + memory safety, every size)', source=PQ),
         Job('book.heapify', C, 'h_heapify_lc', route='LC', loops=True, nloops=2, defines=['LCMODE'], timeout=600, target='concurrent_priority_queue::heapify (bookkeeping + memory safety, every size)', source=PQ),
-        Job('heap.reheap', C, 'h_reheap', route='BD', bound_text='heap of at most %d elements, arbitrary int keys' % q, defines=['MAXN=%d' % q], unwind=q + 6, timeout=900,
-            target='concurrent_priority_queue::reheap', source=PQ),
-        Job('heap.heapify', C, 'h_heapify', route='BD', bound_text='at most %d elements, arbitrary int keys' % q, defines=['MAXN=%d' % q], unwind=q + 6, timeout=900,
-            target='concurrent_priority_queue::heapify', source=PQ),
+        Job('heap.heapify.order', C, 'h_heapify_lc', route='LC', loops=True, nloops=2, solver='cadical', defines=['HEAPLC', 'PART_ORDER'], timeout=400, inputs=['IN_n', 'IN_mark', 'IN_k'],
+            target='concurrent_priority_queue::heapify (heap order at an arbitrary position, every size)', source=PQ),
+        Job('heap.heapify.kept', C, 'h_heapify_lc', route='LC', loops=True, nloops=2, solver='cadical', defines=['HEAPLC', 'PART_KEPT'], timeout=400, inputs=['IN_n', 'IN_mark', 'IN_k'],
+            target='concurrent_priority_queue::heapify (an arbitrary element followed: it keeps a place, every size)', source=PQ),
+        Job('heap.heapify.distinct', C, 'h_heapify_lc', route='LC', loops=True, nloops=2, solver='cadical', defines=['HEAPLC', 'PART_DIST'], timeout=400, inputs=['IN_n', 'IN_mark', 'IN_k'],
+            target='concurrent_priority_queue::heapify (two arbitrary elements followed: their places stay distinct, every size)', source=PQ),
+        Job('heap.reheap.order', C, 'h_reheap_lc', route='LC', loops=True, nloops=1, defines=['HEAPLC', 'PART_ORDER'], timeout=400, inputs=['IN_n', 'IN_mark', 'IN_k'],
+            target='concurrent_priority_queue::reheap (heap order at an arbitrary position, every size)', source=PQ),
+        Job('heap.reheap.kept', C, 'h_reheap_lc', route='LC', loops=True, nloops=1, defines=['HEAPLC', 'PART_KEPT'], timeout=400, inputs=['IN_n', 'IN_mark', 'IN_k'],
+            target='concurrent_priority_queue::reheap (an arbitrary element followed: it keeps a place, every size)', source=PQ),
+        Job('heap.reheap.distinct', C, 'h_reheap_lc', route='LC', loops=True, nloops=1, defines=['HEAPLC', 'PART_DIST'], timeout=400, inputs=['IN_n', 'IN_mark', 'IN_k'],
+            target='concurrent_priority_queue::reheap (two arbitrary elements followed: their places stay distinct, every size)', source=PQ),
+        Job('batch.handle_operations.records', C, 'h_handle_lc', route='LC', loops=True, nloops=2, defines=['HANDLELC', 'PART_L'], timeout=600, inputs=['IN_n', 'IN_nops'],
+            target='concurrent_priority_queue::handle_operations (batch of every length: records, postponed-pop list, status words, termination)', source=PQ),
+        Job('batch.handle_operations.elements', C, 'h_handle_lc', route='LC', loops=True, nloops=2, defines=['HANDLELC', 'PART_E'], timeout=600, inputs=['IN_n', 'IN_nops'],
+            target='concurrent_priority_queue::handle_operations (batch of every length, queue of every size: elements, priority, heap order, sizes; heapify/reheap by their contracts)', source=PQ),
+        Job('lemma.rootmax', C, 'h_lemma_rootmax', route='LW', defines=['HANDLELC'], unwind=18, timeout=300, target='lemma: heap order at every position => the root is maximal (size <= 2^16)', source='specs/C13/c13.c'),
+        Job('api.push_copy', C, 'h_push_copy', route='LF', defines=['WRAP'], timeout=120, target='concurrent_priority_queue::push(const value_type&) + cpq_operation / aggregated_operation constructors', source=PQ),
+        Job('api.push_move', C, 'h_push_move', route='LF', defines=['WRAP'], timeout=120, target='concurrent_priority_queue::push(value_type&&) + constructors', source=PQ),
+        Job('api.try_pop', C, 'h_try_pop', route='LF', defines=['WRAP'], timeout=120, target='concurrent_priority_queue::try_pop + constructors', source=PQ),
+        Job('api.size_empty', C, 'h_size_empty', route='LF', defines=['WRAP'], timeout=120, target='concurrent_priority_queue::size, empty', source=PQ),
+        Job('container.clear', C, 'h_clear', route='LF', defines=['WRAP'], timeout=120, target='concurrent_priority_queue::clear', source=PQ),
+        Job('container.assign', C, 'h_assign', route='LF', defines=['WRAP'], timeout=120, target='concurrent_priority_queue::assign(begin, end) (bulk load, mark reset, heapify by its contract)', source=PQ),
+        Job('container.copy_assign', C, 'h_copy_assign', route='LF', defines=['WRAP'], timeout=120, target='concurrent_priority_queue::operator=(const concurrent_priority_queue&)', source=PQ),
         Job('batch.handle_operations', C, 'h_handle', route='BD', bound_text='queue of at most 4 elements, batch of at most 3 operations', defines=['MAXN=8', 'BATCH'], unwind=14, timeout=900,
             target='concurrent_priority_queue::handle_operations (+heapify, reheap)', source=PQ),
     ]
     return {
         'jobs': jobs, 'sliced': sliced, 'fired': fired,
-        'trusted': ['std::vector<T> data modelled as array + length (VEC_* macros); capacity never exhausted', 'Compare bound to std::less<int>', 'the aggregator runs handle_operations on one thread at a time (aggregator hand-off: not proved here)'],
-        'drops': ['try/catch around push (TBB_USE_EXCEPTIONS arm cut)', 'std::move -> copy', 'status/next atomics -> plain fields (handler is the only thread touching the batch)', 'call_itt_notify -> RG_NOP()'],
-        'not_decided': ['heap order for more elements than the stated bound (only bounded unwinding: neighbouring-index facts need quantifiers, which no available back end decides)',
-                        'aggregator exclusivity (single handler, each operation in exactly one batch)', 'linearizability across batches (paper argument in DESIGN.md)', 'exception from the element copy'],
-        'assumptions': ['element type int, Compare = std::less<int>'],
+        'trusted': ['std::vector<T> data modelled as array + length (VEC_* macros); capacity never exhausted (push_back does not throw)', 'Compare bound to std::less<int>',
+                    'heap.*/batch.*: a universally quantified invariant is proved at one arbitrary index; where the loop body needs it at a second, state-dependent index (parent of the hole in heapify, child that moves up in reheap, record at the cursor in handle_operations) that instance of the SAME formula is assumed at the head of the loop body (induction hypothesis); the extraction checks that the site precedes every write of the body',
+                    'batch.handle_operations.*: heapify / reheap replaced by stubs that assert the precondition and assume the postcondition proved by heap.heapify.* / heap.reheap.* (order at g_k, the followed element keeps a place, heap-region elements stay in the heap region) plus lemma.rootmax; the composition (order for all positions => root maximal) is on paper',
+                    'batch.handle_operations.*: operation records are tokens, every field access is a hook; POST[] is a prophecy array resolved at the first-pass decision; part E over-approximates the postponed list (any pop record or NULL)',
+                    'api.*: aggregator::execute + handler replaced by a stub that answers SUCCEEDED or FAILED (agg.execute and batch.handle_operations.records prove exactly one non-zero status per record)',
+                    'container.*: std::vector assign / clear / copy-assignment modelled on the length only'],
+        'drops': ['try/catch around push (TBB_USE_EXCEPTIONS arm cut)', 'std::move -> copy', 'status/next atomics -> plain fields or hooks (handler is the only thread touching the batch)', 'call_itt_notify -> RG_NOP()',
+                  'element moves data[i] = move(data[j]) / data[i] = move(data.back()) -> DATA_MOVE*/ hooks (same assignment + ghost position update)', '*(op->elem) = move(data.back()|data[i]) -> POP_TAKE_* hooks',
+                  'op->type / op->next / op->elem / op->status.store -> OP_* / SET_STATUS hooks', 'throw_exception(bad_alloc) -> THROW_BAD_ALLOC() counter', 'memory orders'],
+        'not_decided': ['exception thrown by the element copy/move inside the handler (catch arm cut: FAILED status of a push is produced only there)',
+                        'linearizability ACROSS batches and the real-time order between a batch and operations that completed before it: paper argument (each batch is handled atomically by one thread: agg.execute; within a batch every pop is checked against the elements queued before the batch)',
+                        'distinctness of places at batch level (two followed elements) is proved for heapify/reheap only; for handle_operations one element is followed and the sizes are counted',
+                        'range constructor, copy/move constructors, move assignment, swap, emplace (forwarding to push(T&&)), allocator-extended constructors',
+                        'element types other than int / comparators other than std::less<int> (a strict weak order is what the proofs use: !(a<b) chains)',
+                        'arrays above 2^16 elements (heap.*) / batches above 2^12 records over queues above 2^12 elements (batch.*): numeric bounds of the symbolic arrays, not unwinding bounds'],
+        'assumptions': ['element type int, Compare = std::less<int>', 'sequentially consistent atomics; the handler is the only thread that touches the batch and the array (agg.execute)', 'allocation in push_back succeeds',
+                        'every record of a batch has type PUSH_OP, POP_OP or PUSH_RVALUE_OP (api.* prove that push/try_pop build no other)'],
     }
 
 
